@@ -21,8 +21,8 @@ def run(ck: Check):
     ck.trusted = TRUSTED
     ck.rule = ("two-process histories: process A (seed s1) builds a model (dense random / dense unique / conv2d random-unique+dense / conv2d "
                "random Walsh / conv3d), saves state_dict and a compiled library (num_bits in {8,16,32,64}); process B (seed s2, RNG advanced by "
-               "a random amount) rebuilds the layers with the same constructor arguments, loads the state and the library and evaluates a "
-               "100-row probe batch (longer than a word); outputs must be identical to A's. Non-trivial: seed s2 != s1. "
+               "a random amount) rebuilds the layers with the same constructor arguments, loads the state (once into a fresh model, once into a model that was already run in training and eval mode, with no "
+               "mode switch afterwards) and the library and evaluates a 100-row probe batch (longer than a word); outputs must be identical to A's. Non-trivial: seed s2 != s1. "
                "Distinct = canonical JSON of (kind, model id, seeds, num_bits).")
     ck.translate("Persist", t_persist.gen_persist)
     ck.translate("LibIO", t_libio.gen_libio)
@@ -50,12 +50,14 @@ def run(ck: Check):
         tau = a["tau"] or 1.0
         if [[round(v * tau) for v in row] for row in a["eval"]] != a["compiled"]:
             ck.disagree("compiled library differs from the model already in the saving process", case, signature={"what": "compile", "kind": p["kind"]})
-        b_jobs.append(dict(p, kind_of_job="reload", input_shape=a["input_shape"], k=a["k"]))
-        idx.append(i)
+        for warm in (False, True):
+            b_jobs.append(dict(p, kind_of_job="reload", input_shape=a["input_shape"], k=a["k"], warm=warm))
+            idx.append((i, warm))
     b_res = subproc.run_jobs(ck.scratch, b_jobs, workers=6)
-    for i, r in zip(idx, b_res):
+    for (i, warm), r in zip(idx, b_res):
         p, a = plan[i], a_res[i]["steps"][0]
         case = {k: p[k] for k in ("kind", "model", "W", "seed", "seed2", "advance")}
+        case["rebuilt_model_used_before_loading"] = warm
         if not r["done"] or not r["steps"]:
             ck.disagree("reloading process died / failed", dict(case, stderr=r["stderr"][-300:]), signature={"what": "reload-failed", "kind": p["kind"]})
             continue
